@@ -791,6 +791,170 @@ def rule_r14(prog, res) -> None:
         raise AnalysisError("C15.R14: no from_dict arm that is selected by a key and builds the object directly was found")
 
 
+def rule_r15(prog, res) -> None:
+    """small facts the configuration algebra stands on, each folded on a witness: (a) `BinningConfig.zmin` / `zmax` are
+    the first / last edge, `is_custom` is true exactly for the method `custom`; (b) every bin-edge factory makes
+    `num_bins + 1` edges; (c) the logarithmic factory transforms with log(1 + z) and back with exp(.) - 1; (d) a missing
+    cosmology — and only a missing one — is replaced by the default (`parse_cosmology`, `cosmology or default`);
+    (e) the generic `modify` merges exactly the given (not NotSet) keywords into the dictionary it rebuilds from."""
+    from .. import symx
+    from ..norm import poly as _poly15
+    from .c18 import _fold_value
+
+    n = 0
+    bc = prog.find_class("BinningConfig")
+    # (a)
+    for name, idx in (("zmin", 0), ("zmax", -1)):
+        m = bc.methods.get(name)
+        if m is None:
+            raise AnalysisError(f"C15.R15: BinningConfig.{name} vanished")
+        res.touch(m)
+        rets = [x.value for x in walk_no_nested(m.node) if isinstance(x, ast.Return) and x.value is not None]
+        subs = [y for r in rets for y in ast.walk(r) if isinstance(y, ast.Subscript) and isinstance(y.value, ast.Attribute) and y.value.attr == "edges"]
+        n += 1
+        try:
+            got = [ceval(y.slice, {}) for y in subs]
+        except Unknown:
+            got = []
+        W = (1.0, 2.0, 4.0)
+        if got and all(isinstance(g, int) and W[g] == W[idx] for g in got if isinstance(g, int) and -3 <= g < 3) and all(isinstance(g, int) for g in got):
+            res.ok("C15.R15", res.site(m), f"the {'first' if idx == 0 else 'last'} bin edge")
+        else:
+            res.violation("C15.R15", m, m.node, f"BinningConfig.{name} is not the {'first' if idx == 0 else 'last'} edge of the binning (edges[{got}]): to_dict / modify / create rebuild the configuration over another redshift range than it has", key_extra=f"binning-config-{name}")
+    ic = bc.methods.get("is_custom")
+    if ic is not None:
+        res.touch(ic)
+        r_ = [x.value for x in walk_no_nested(ic.node) if isinstance(x, ast.Return) and x.value is not None]
+        n += 1
+        try:
+            tab = {mv: bool(ceval(r_[0], {"self.method": mv})) for mv in ("custom", "linear", "comoving", "logspace")}
+        except (Unknown, IndexError):
+            raise AnalysisError("C15.R15: cannot fold BinningConfig.is_custom") from None
+        if tab == {"custom": True, "linear": False, "comoving": False, "logspace": False}:
+            res.ok("C15.R15", res.site(ic), "true exactly for method 'custom'")
+        else:
+            res.violation("C15.R15", ic, ic.node, f"BinningConfig.is_custom is {tab}: to_dict stores generated bins as custom edges and custom edges as generation parameters, the restored configuration differs from the stored one", key_extra="is-custom")
+    # (b), (c)
+    fac = prog.find_class("RedshiftBinningFactory")
+    for name in ("linear", "comoving", "logspace"):
+        m = fac.methods.get(name)
+        if m is None:
+            raise AnalysisError(f"C15.R15: RedshiftBinningFactory.{name} vanished")
+        res.touch(m)
+        nb = next((q for q in m.param_names() if "num" in q), None)
+        want = _poly15(ast.parse(f"{nb} + 1", mode="eval").body)
+        resolver = lambda nm, m=m: (lambda vs: vs[0] if len(vs) == 1 else None)([v for v in all_def_values(m.node, nm) if v is not None])  # noqa: E731
+        for c in calls_in(m):
+            fnm = (dotted(c.func) or "").split(".")[-1]
+            cnt = None
+            if fnm in ("linspace", "logspace", "geomspace") and len(c.args) >= 3:
+                cnt = c.args[2]
+            elif fnm in ("linspace", "logspace", "geomspace") and kwarg(c, "num") is not None:
+                cnt = kwarg(c, "num")
+            elif fnm in ("empty", "zeros") and c.args:
+                cnt = c.args[0]
+            if cnt is None:
+                continue
+            n += 1
+            try:
+                ok_ = _poly15(cnt, resolver).equals(want)
+            except Exception:  # noqa: BLE001
+                raise AnalysisError(f"C15.R15: cannot normalise the number of edges `{unparse(cnt)}` in {m.short}") from None
+            if ok_:
+                res.ok("C15.R15", res.site(m, f"{fnm} count"), f"{unparse(cnt)} = {nb} + 1 edges")
+            else:
+                res.violation("C15.R15", m, c, f"RedshiftBinningFactory.{name} makes `{unparse(cnt)}` edges instead of {nb} + 1: the configuration reports {nb} bins, the measurement has another number (arrays per bin are sized by the edges)", key_extra=f"factory-edge-count-{name}")
+        if name == "logspace":
+            logs = [c for c in calls_in(m) if (dotted(c.func) or "").split(".")[-1] in ("log", "log1p")]
+            fwd_ok = bool(logs) and all(((dotted(c.func) or "").endswith("log1p")) or all(isinstance(y, ast.BinOp) and isinstance(y.op, ast.Add) and any(isinstance(z, ast.Constant) and z.value == 1 for z in (y.left, y.right)) for y in (c.args[0].elts if isinstance(c.args[0], (ast.List, ast.Tuple)) else [c.args[0]])) for c in logs)
+            back = [x for x in walk_no_nested(m.node) if isinstance(x, ast.BinOp) and isinstance(x.op, (ast.Sub, ast.Add)) and isinstance(x.right, ast.Constant) and x.right.value == 1 and any(isinstance(y, ast.Call) and (dotted(y.func) or "").split(".")[-1] in ("logspace", "exp", "expm1") for y in ast.walk(x.left))]
+            back_ok = any(isinstance(x.op, ast.Sub) for x in back) and not any(isinstance(x.op, ast.Add) for x in back) or any((dotted(c.func) or "").endswith("expm1") for c in calls_in(m))
+            n += 1
+            if fwd_ok and back_ok:
+                res.ok("C15.R15", res.site(m, "log(1+z)"), "edges are equidistant in log(1 + z): forward log(1 + z), back exp(.) - 1")
+            else:
+                res.violation("C15.R15", m, m.node, f"RedshiftBinningFactory.logspace does not transform with log(1 + z) and back with exp(.) - 1 (forward ok: {fwd_ok}, back ok: {back_ok}): the inner edges are not equidistant in log(1 + z), only the pinned outer edges are right", key_extra="logspace-transform")
+    # (d)
+    pc = prog.func("parse_cosmology")
+    res.touch(pc)
+    prm = pc.param_names()[0]
+    for given in (False, True):
+        def orc(t, given=given):
+            if isinstance(t, ast.Compare) and len(t.ops) == 1 and isinstance(t.left, ast.Name) and t.left.id == prm and isinstance(t.comparators[0], ast.Constant) and t.comparators[0].value is None:
+                return (not given) == isinstance(t.ops[0], ast.Is)
+            if isinstance(t, ast.Call) and isinstance(t.func, ast.Name) and t.func.id == "isinstance" and t.args and isinstance(t.args[0], ast.Name) and t.args[0].id == prm:
+                return given and "str" not in unparse(t.args[1])
+            return None
+
+        rets = [p for p in symx.explore(prog, pc, oracle=orc, inline=symx.inline_private_helpers(prog, public={"get_default_cosmology"})) if p.outcome == "return" and p.value is not None]
+        n += 1
+        if not rets:
+            res.violation("C15.R15", pc, pc.node, f"parse_cosmology never returns for {'a cosmology instance' if given else 'None'}", key_extra=f"parse-cosmology-{given}")
+            continue
+        is_default = [any(isinstance(y, ast.Call) and (dotted(y.func) or "").split(".")[-1] == "get_default_cosmology" for y in ast.walk(p.value)) for p in rets]
+        is_same = [isinstance(p.value, ast.Name) and p.value.id == prm for p in rets]
+        if (given and all(is_same)) or (not given and all(is_default)):
+            res.ok("C15.R15", res.site(pc, "given" if given else "None"), "returned as given" if given else "replaced by the default cosmology")
+        else:
+            res.violation("C15.R15", pc, pc.node, f"parse_cosmology returns {'the default cosmology' if given else 'something else than the default'} for {'a cosmology instance that was given' if given else 'None'}: " + ("the configured cosmology is silently replaced, comoving bins and physical scales are computed with the default" if given else "a missing cosmology is not resolved"), key_extra=f"parse-cosmology-{given}")
+    for fi in prog.funcs:
+        if not fi.module.name.startswith(("yaw.cosmology", "yaw.config")):
+            continue
+        for x in walk_no_nested(fi.node):
+            if isinstance(x, (ast.Assign, ast.Return)) and isinstance(x.value, ast.BoolOp) and any(isinstance(y, ast.Call) and (dotted(y.func) or "").split(".")[-1] == "get_default_cosmology" for y in ast.walk(x.value)) and any(isinstance(v, ast.Name) and "cosmo" in v.id for v in x.value.values):
+                n += 1
+                res.touch(fi)
+                nm = next(v.id for v in x.value.values if isinstance(v, ast.Name) and "cosmo" in v.id)
+
+                class _D(ast.NodeTransformer):
+                    def visit_Call(self, c_):
+                        return ast.Constant(value="DEFAULT") if (dotted(c_.func) or "").split(".")[-1] == "get_default_cosmology" else c_
+
+                import copy as _cp
+
+                expr = _D().visit(_cp.deepcopy(x.value))
+                try:
+                    tab = (_fold_value(expr, {nm: "GIVEN"}), _fold_value(expr, {nm: None}))
+                except Exception:  # noqa: BLE001
+                    continue
+                if tab == ("GIVEN", "DEFAULT"):
+                    res.ok("C15.R15", res.site(fi, f"{nm} or default"), "a given cosmology is kept, a missing one replaced by the default")
+                else:
+                    res.violation("C15.R15", fi, x, f"`{unparse(x.value)}` gives {tab[0]!r} for a given cosmology and {tab[1]!r} for None: the cosmology that was passed in is replaced by the default (or a missing one stays None)", key_extra=f"cosmology-or-default-{fi.qualname}")
+    # (e)
+    base = prog.find_class("BaseConfig")
+    gm = base.methods.get("modify") if base else None
+    if gm is not None and not all(isinstance(st, (ast.Pass, ast.Expr)) for st in gm.node.body):
+        res.touch(gm)
+        kw = gm.node.args.kwarg.arg if gm.node.args.kwarg else None
+        merges = [c for c in calls_in(gm) if isinstance(c.func, ast.Attribute) and c.func.attr == "update" and kw and any(isinstance(y, ast.Name) and y.id == kw for y in ast.walk(c))]
+        merges += [x for x in walk_no_nested(gm.node) if isinstance(x, ast.BinOp) and isinstance(x.op, ast.BitOr) and kw and any(isinstance(y, ast.Name) and y.id == kw for y in ast.walk(x))]
+        merges += [x for x in walk_no_nested(gm.node) if isinstance(x, ast.Dict) and any(k is None for k in x.keys) and kw and any(isinstance(y, ast.Name) and y.id == kw for y in ast.walk(x))]
+        n += 1
+        if not merges:
+            res.violation("C15.R15", gm, gm.node, "the generic modify() does not merge the given keywords into the dictionary it rebuilds the configuration from: every modification is silently ignored", key_extra="generic-modify-ignores-kwargs")
+        else:
+            filt = [cnd for mg in merges for y in ast.walk(mg) if isinstance(y, (ast.DictComp, ast.GeneratorExp, ast.ListComp)) for g in y.generators for cnd in g.ifs]
+            bad = None
+            for cnd in filt:
+                vn = next((y.id for y in ast.walk(cnd) if isinstance(y, ast.Name) and y.id not in ("NotSet",)), None)
+                if vn is None:
+                    continue
+                try:
+                    keep_set = bool(ceval(cnd, {vn: 5, "NotSet": "<NotSet>"}))
+                    keep_unset = bool(ceval(cnd, {vn: "<NotSet>", "NotSet": "<NotSet>"}))
+                except Unknown:
+                    continue
+                if not keep_set or keep_unset:
+                    bad = cnd
+            if bad is not None:
+                res.violation("C15.R15", gm, bad, f"the generic modify() keeps a keyword when `{unparse(bad)}`: given values are dropped and the NotSet placeholders are merged into the configuration", key_extra="generic-modify-filter")
+            else:
+                res.ok("C15.R15", res.site(gm), "the given (not NotSet) keywords are merged into the dictionary handed to from_dict")
+    if n < 12:
+        raise AnalysisError(f"C15.R15: only {n} facts folded, minimum 12")
+
+
 RULES = [
     ("C15.R1", rule_r1, QUICK),
     ("C15.R2", rule_r2, QUICK),
@@ -806,4 +970,5 @@ RULES = [
     ("C15.R12", rule_r12, QUICK),
     ("C15.R13", rule_r13, QUICK),
     ("C15.R14", rule_r14, QUICK),
+    ("C15.R15", rule_r15, QUICK),
 ]
